@@ -397,5 +397,5 @@ PROPS["C14"] = _std(
     "Exhaustive enumeration of bounded create/clone/use/zeroize/drop histories with an allocator-level observer; differential freed-heap comparison across secrets under every dispatch.",
     "DESIGN.md section 4, C14",
     "exhaustive enumeration of object lifecycles under a heap observer + differential freed-block comparison",
-    lambda tier: [R("simd"), R("simd", dispatch="serial"), R("avx512")] if tier == "quick" else [R("simd"), R("simd", dispatch="serial"), R("serial32"), R("fiat64"), R("avx512"), R("avx512", dispatch="avx2"), R("avx512", dispatch="serial")],
+    lambda tier: [R("simd"), R("simd", dispatch="serial"), R("serial32"), R("avx512")] if tier == "quick" else [R("simd"), R("simd", dispatch="serial"), R("serial32"), R("fiat64"), R("fiat32"), R("avx512"), R("avx512", dispatch="avx2"), R("avx512", dispatch="serial")],
 )
